@@ -74,7 +74,7 @@ func runAccept(r *Run, v2 bool) int {
 		w.Count("strings_from_" + m.Src)
 		h := Hash(s)
 		for level := 0; level < 3; level++ {
-			mode := int((h >> uint(8*level)) % lib.NJudgedModes) // fresh constructor result / nil receiver / queried before Decode / by-value copy / embedded / re-plugged / preset / nil after a rejected nil decode
+			mode := int((h >> uint(8*level)) % lib.NJudgedModes) // fresh constructor result / nil receiver / queried before Decode / by-value copy / embedded decoder / nil after a rejected nil decode
 			if checkAccept(w, prop, v2, level, s, mode) {
 				acc[level].Add(1)
 				w.Count("accepted_from_" + m.Src)
